@@ -989,6 +989,17 @@ def _newton(model: Model, rep):
     lp = loops[0]
     rets = [n for n in walk_no_nested(node) if isinstance(n, ast.Return)]
     bad = []
+    existential = []
+
+    def _scalar_test(t):
+        """the compared quantity is one number already (a max / norm over
+        everything, e.g. np.abs(dX).max())"""
+        for n in ast.walk(t):
+            if isinstance(n, ast.Call) and isinstance(
+                    n.func, ast.Attribute) and n.func.attr in (
+                    "max", "sum") and not n.args and not n.keywords:
+                return True
+        return False
     for r in rets:
         guard = None
         for n in ast.walk(lp):
@@ -1001,6 +1012,36 @@ def _newton(model: Model, rep):
                 for m in ast.walk(n)) for n in ast.walk(guard.test))
         if not has_cmp:
             bad.append(r)
+            continue
+        # the test is an array over cells (and points): it must hold for
+        # ALL of them before the iterate is returned
+        red = [n for n in ast.walk(guard.test) if isinstance(n, ast.Call)
+               and ((isinstance(n.func, ast.Attribute)
+                     and n.func.attr in ("all", "any"))
+                    or src(n.func) in ("np.all", "np.any", "all", "any"))]
+        kinds = {(n.func.attr if isinstance(n.func, ast.Attribute)
+                  else src(n.func).split(".")[-1]) for n in red}
+        scalar_norm = any(
+            isinstance(n, ast.Call) and src(n.func) in (
+                "np.linalg.norm", "np.max", "np.abs") and not any(
+                k.arg == "axis" for k in n.keywords) and len(n.args) == 1
+            and False for n in ast.walk(guard.test))
+        if "any" in kinds:
+            existential.append(guard)
+        elif "all" not in kinds and not _scalar_test(guard.test):
+            raise AnalysisError("invF: reduction of the stopping test over "
+                                "the cells not recognised")
+    if existential:
+        rep.fail(R5, fn.path, qn, "invF:all-cells",
+                 f"the stopping test '{src(existential[0].test)[:70]}' "
+                 f"holds as soon as ONE cell has converged: the iterate is "
+                 f"returned while other cells (non-parallelogram cells need "
+                 f"more steps) are still off - reference points, hence "
+                 f"basis values at facet quadrature points, are inexact",
+                 existential[0].lineno)
+    else:
+        rep.ok(R5, "invF:all-cells", "the iterate is returned only when "
+               "the stopping test holds for all cells and points")
     after = node.body[node.body.index(lp) + 1:]
     falls = not (after and isinstance(after[-1], ast.Raise)) or lp.orelse
     if rets and not bad and not falls:
@@ -1053,6 +1094,10 @@ def run(model: Model, rep, tier: str) -> None:
 _A, _I, _R = ("skfem/mapping/mapping_affine.py",
               "skfem/mapping/mapping_isoparametric.py", "skfem/refdom.py")
 MUTANTS = [
+    ("Newton inverse returns when any cell has converged",
+     (_I, "            if (np.linalg.norm(dX, 1, (0, 2)) < newton_tol).all():",
+      "            if (np.linalg.norm(dX, 1, (0, 2)) < newton_tol).any():"),
+     "C10-R5"),
     ("isoparametric DF collects the Jacobian entries transposed",
      (_I, "            J = [[self.J(i, j, X, tind=tind) for j in "
       "range(self.dim)]\n                 for i in range(self.dim)]\n"
